@@ -188,7 +188,7 @@ def variant_of(k, shift=0):
 # random paragraphs
 # ----------------------------------------------------------------------------------------------------
 
-SOLID = "abcdé字"
+SOLID = "abcdé字\u00a0\u3000\u2003"      # incl. NO-BREAK SPACE, IDEOGRAPHIC SPACE, EM SPACE: not XML white space, never collapsed
 WSCH = [" ", " ", " ", "\t", "\n", "\r", "\r\n"]
 
 
